@@ -37,6 +37,11 @@ func (e *executor[R]) Apply(innerFn func(failsafe.Execution[R]) *common.PolicyRe
 				return cancelResult
 			}
 			if e.isRetriesExceeded() {
+				// Retries were already exceeded by another attempt of this execution, so the result is passed through rather
+				// than handled again. It is still a failed result if this policy considers it a failure.
+				if e.IsFailure(result.Result, result.Error) {
+					return result.WithFailure()
+				}
 				return result
 			}
 			verifhook.Yield("retry.afterExceededCheck")
